@@ -14,6 +14,8 @@ import (
 	"syscall"
 	"time"
 
+	"github.com/coredhcp/coredhcp/handler"
+	rangeplugin "github.com/coredhcp/coredhcp/plugins/range"
 	"github.com/insomniacslk/dhcp/dhcpv4"
 	"github.com/insomniacslk/dhcp/dhcpv6"
 
@@ -602,6 +604,37 @@ server6:
 		}
 	} else {
 		ctx.Count("wire.canaries_answered", 1)
+	}
+	// the lease database the real server wrote: stop the server, reopen the file with a fresh instance of the
+	// plugin (what the next start-up does) and ask for every binding the clients were told
+	syscall.Kill(w.cmd.Process.Pid, syscall.SIGKILL)
+	select {
+	case err := <-exited:
+		exited <- err
+	case <-time.After(5 * time.Second):
+	}
+	h, err := rangeplugin.Plugin.Setup4(filepath.Join(dir, "leases.db"), "10.77.0.100", "10.77.0.180", "60s")
+	ctx.Eval("C03", 1)
+	if err != nil {
+		for _, pr := range []string{"C03", "C02"} {
+			ctx.Viol(pr, "wire:restart-fails:"+restartClass(err), "%s: the lease database written by the server (%d bindings handed out) cannot be reopened: %v", w.conf, len(lease.Bind), err)
+		}
+	} else {
+		s := newSrv4([]handler.Handler4{h}, loIface())
+		for key, ip := range lease.Bind {
+			var l int
+			var hx string
+			fmt.Sscanf(key, "%d:%s", &l, &hx)
+			mac, _ := hex.DecodeString(hx)
+			p := pkt.Request4(0xdb0000+uint32(len(mac)), mac, 1)
+			p.Gi = pkt.IP4("10.9.9.9")
+			rep, _, _ := one4(s, p.Bytes())
+			if rep == nil || model.IPU32(rep.YourIPAddr) != ip {
+				ctx.Viol("C03", "wire:binding-not-restored", "%s: client %s was told %s by the running server; after reopening its lease database it gets %s", w.conf, key, model.U32IP(ip), repStr(rep))
+			}
+			ctx.Count("wire.bindings_restored", 1)
+		}
+		ctx.Nontrivial("C03", fmt.Sprintf("wire/%d/%v", c.Seed, c.Bound))
 	}
 	ctx.Count("wire.exchanges", int64(nexch))
 	ctx.Count("wire.servers", 1)
